@@ -24,6 +24,9 @@ import (
 type G struct {
 	T *rapid.T
 	W *World
+	// NoForge: never have the attesters sign a source-domain-4 message this chain
+	// did not emit (assumption A3; used by the conservation properties).
+	NoForge bool
 }
 
 func (g *G) Int(label string, lo, hi int) int { return rapid.IntRange(lo, hi).Draw(g.T, label) }
@@ -1051,6 +1054,8 @@ func (g *G) ReplaceOp(label string, validPct int) *Op {
 	var att []byte
 	if cls == "own-badatt" {
 		att, _ = g.BadAttestation(label+"/att", orig)
+	} else if g.NoForge && (cls == "forged-own" || cls == "forged-module" || cls == "user-sent-burn") {
+		att = g.Bytes(label+"/unsigned", 65*maxInt(1, int(g.W.Model.Thr)))
 	} else {
 		att = g.HonestAttestation(label+"/att", orig)
 		if att == nil {
@@ -1128,6 +1133,8 @@ func (g *G) RepDepOp(label string, validPct int) *Op {
 	var att []byte
 	if cls == "own-badatt" {
 		att, _ = g.BadAttestation(label+"/att", orig)
+	} else if g.NoForge && (cls == "forged-own" || cls == "forged-module" || cls == "user-sent-burn") {
+		att = g.Bytes(label+"/unsigned", 65*maxInt(1, int(g.W.Model.Thr)))
 	} else {
 		att = g.HonestAttestation(label+"/att", orig)
 		if att == nil {
